@@ -24,3 +24,29 @@ Theorem C06_layout_entry : forall m p t tab idx, in_bounds (expected_shape m p t
   = get VUndef tab (map (fun sg => ilook (state_at m p t idx) (fst sg)) (states m)).
 Proof. exact layout_entry. Qed.
 Print Assumptions C06_layout_entry.
+
+(* ---- glue (Gen/EntryPoint.v, regenerated from get_lcm_function) -------------------------------- *)
+(* simulate is handed the very lists of next-period state indexers and of continuous choice grids    *)
+(* that solve was handed, and in every period its policy function is built from the SAME             *)
+(* utility-and-feasibility function (same next-period space info, same period, same "is last") as    *)
+(* the function whose maximum solve stored                                                           *)
+From LCM Require Import Gen.EntryPoint Proofs.C01_EntryPoint.
+Theorem C06_simulate_is_built_from_what_solve_used :
+  forall (T_choice_grids T_sc_space T_space_info T_state_indexer T_segments T_u_and_f T_compute_ccv
+          T_compute_ccv_argmax T_calculator : Type)
+         (choice_grids : T_choice_grids) (empty_space_infos : T_space_info) (empty_state_indexers : T_state_indexer)
+         (d_space_infos : T_space_info) (d_choice_segments : T_segments)
+         (create_state_choice_space : nat -> bool -> T_sc_space * T_space_info * T_state_indexer * T_segments)
+         (get_u_and_f : T_space_info -> nat -> bool -> T_u_and_f)
+         (create_ccv : T_u_and_f -> T_compute_ccv) (create_policy : T_u_and_f -> T_compute_ccv_argmax)
+         (get_solve_discrete_problem : bool -> T_segments -> T_calculator) (n : nat),
+  let B := build T_choice_grids T_sc_space T_space_info T_state_indexer T_segments T_u_and_f T_compute_ccv
+             T_compute_ccv_argmax T_calculator choice_grids empty_space_infos empty_state_indexers d_space_infos
+             d_choice_segments create_state_choice_space get_u_and_f create_ccv create_policy
+             get_solve_discrete_problem n in
+  fst (fst (snd B)) = snd (fst (fst (fst (fst B)))) /\
+  snd (fst (snd B)) = snd (fst (fst (fst B))) /\
+  forall t d d', (t < n)%nat ->
+    exists uf, nth t (snd (fst (fst B))) d = create_ccv uf /\ nth t (snd (snd B)) d' = create_policy uf.
+Proof. exact simulate_built_from_what_solve_used. Qed.
+Print Assumptions C06_simulate_is_built_from_what_solve_used.
